@@ -264,7 +264,7 @@ PROPS.update({
     'C13': dict(
         extra_modules=['GraphrsModel.Props.C13Model', 'GraphrsModel.Props.C13Termination', 'GraphrsModel.Props.C13TerminationFull', 'GraphrsModel.Props.C13Monotone', 'GraphrsModel.Props.C13Communities', 'GraphrsModel.Props.FormulasC13'],
         translators=['formulas'],
-        gens=[('louv', 'random', 1500, 25000, 9), ('louv', 'ties', 500, 8000, 10), ('louv', 'strand', 1500, 25000, 6), ('louv', 'random', 100, 2000, 20), ('louv', 'random', 8, 120, 45)],
+        gens=[('louv', 'random', 1500, 25000, 9), ('louv', 'ties', 500, 8000, 10), ('louv', 'strand', 1500, 25000, 6), ('louv', 'random', 100, 2000, 20), ('louv', 'random', 8, 120, 45), ('louv', 'hub', 6, 80, 0)],
         spec_fields=[r'ok\.levels', r'ok\.nested', r'ok\.monotone', r'ok\.last'], model_fields=[r'build', r'parts'],
         nontrivial=lambda req, I: ',' in I.get('parts', ''),
         hist=lambda req, I: graph_hist(req, I) + ['levels.%d' % len(I.get('parts', '').split())],
